@@ -18,11 +18,15 @@ use redis_sim::redis::SDS;
 use redis_sim::replication::lattice::{LamportClock, ReplicaId};
 use redis_sim::replication::state::{ReplicatedValue, ReplicationDelta};
 use redis_sim::streaming::wal::{WalEntry, WalReader, WalRotator, WalWriter, WAL_ENTRY_OVERHEAD, WAL_HEADER_SIZE};
+use redis_sim::streaming::wal_actor::spawn_wal_actor;
+use redis_sim::streaming::wal_config::{FsyncPolicy, WalConfig};
 use redis_sim::streaming::wal_store::WalStore;
+use redis_sim::streaming::{InMemoryObjectStore, RecoveryManager};
+use std::sync::Arc;
 use serde::{Deserialize, Serialize};
 use serde_json::json;
 use std::collections::{BTreeMap, BTreeSet};
-use store::ImgStore;
+use store::{ImgStore, ReadFault};
 use vcore::runner::catch;
 use vcore::{CaseCtx, Level, Session};
 
@@ -626,6 +630,19 @@ fn check_mutation(
     let f = &img.files[m];
     img.store.set(&f.name, mutd.to_vec());
     let got = recover(&img.store).map_err(|e| format!("{}: {}", what(), e))?;
+    compare_recovered(img, m, mutd, got, what, ctx)
+}
+
+/// Compare what was recovered with what the property demands when file `m` reads as `mutd`.
+fn compare_recovered(
+    img: &Image,
+    m: usize,
+    mutd: &[u8],
+    got: Vec<E>,
+    what: &dyn Fn() -> String,
+    ctx: &mut CaseCtx<'_>,
+) -> Result<(), String> {
+    let f = &img.files[m];
     let n_before: usize = img.lists[..m].iter().map(|l| l.len()).sum();
     let n_after: usize = img.lists[m + 1..].iter().map(|l| l.len()).sum();
     let all = &img.lists[m];
@@ -886,6 +903,59 @@ fn check_image(case: &ImageCase, ctx: &mut CaseCtx<'_>) -> Result<(), String> {
         }
     }
 
+    // ---- read-side I/O faults during recovery, one file at a time: the file cannot be opened
+    //      (EACCES / vanished), its read fails (EIO), or the read comes back short. The code
+    //      promises "corrupt or unreadable files are skipped": recovery as a whole succeeds,
+    //      every other file is complete, the failing file contributes nothing (short read:
+    //      exactly the entries wholly inside what was read).
+    for m in 0..img.files.len() {
+        let f = &img.files[m];
+        for fault in [ReadFault::OpenIo, ReadFault::OpenNotFound, ReadFault::ReadIo] {
+            evals += 1;
+            img.store.set_read_fault(&f.name, Some(fault));
+            let r = recover(&img.store);
+            img.store.set_read_fault(&f.name, None);
+            let got = r.map_err(|e| {
+                format!(
+                    "{} is unreadable ({:?}) and recovery of the whole log fails instead of skipping the file: {} [{} other files hold {} entries]",
+                    f.name,
+                    fault,
+                    e,
+                    img.files.len() - 1,
+                    img.lists.iter().enumerate().filter(|(i, _)| *i != m).map(|(_, l)| l.len()).sum::<usize>()
+                )
+            })?;
+            let exp: Vec<&E> = img.lists.iter().enumerate().filter(|(i, _)| *i != m).flat_map(|(_, l)| l.iter()).collect();
+            if got.len() != exp.len() || got.iter().zip(exp.iter()).any(|(a, b)| a != *b) {
+                return Err(format!(
+                    "{} is unreadable ({:?}): the other files must recover completely and nothing else; recovered {} entries, expected {}",
+                    f.name,
+                    fault,
+                    got.len(),
+                    exp.len()
+                ));
+            }
+        }
+        let mut ks: BTreeSet<usize> = [0usize, 7, 16].into_iter().collect();
+        for k in 0..f.entries.len() {
+            ks.insert(f.offs[k] + 9);
+            ks.insert(f.offs[k + 1] - 1);
+            ks.insert(f.offs[k + 1]);
+        }
+        for k in ks {
+            if k > f.bytes.len() {
+                continue;
+            }
+            evals += 1;
+            img.store.set_read_fault(&f.name, Some(ReadFault::ReadShort(k)));
+            let r = recover(&img.store);
+            img.store.set_read_fault(&f.name, None);
+            let what = || format!("{} ({} bytes, {} entries): short read of {} bytes", f.name, f.bytes.len(), f.entries.len(), k);
+            let got = r.map_err(|e| format!("{}: {}", what(), e))?;
+            compare_recovered(&img, m, &f.bytes[..k], got, &what, ctx)?;
+        }
+    }
+
     // ---- every file deleted; every pair of files swapped
     for m in 0..img.files.len() {
         evals += 1;
@@ -1063,6 +1133,37 @@ fn check_truncate(case: &ImageCase, ctx: &mut CaseCtx<'_>) -> Result<(), String>
             }
         }
     }
+    // one file unreadable while truncating (median T, fresh rotator): nothing it cannot read may
+    // be judged deletable -- the unreadable file stays if it holds a stamp > T -- and no panic
+    if !has_big(case) {
+        let t = ts.iter().nth(ts.len() / 2).copied().unwrap_or(0);
+        let probe = build(case)?;
+        for m in 0..probe.files.len().min(4) {
+            evals += 1;
+            let img = build(case)?;
+            let f = &img.files[m];
+            img.store.set_read_fault(&f.name, Some(ReadFault::OpenIo));
+            let mfs = (case.max_file_size as usize).max(WAL_HEADER_SIZE + 1);
+            let mut rot = WalRotator::new(img.store.clone(), mfs).map_err(|e| e.to_string())?;
+            let r = catch(|| rot.truncate_before(t)).map_err(|p| format!("truncate_before({}) with {} unreadable panicked: {}", t, f.name, p))?;
+            img.store.set_read_fault(&f.name, None);
+            let left: BTreeSet<String> = img.store.names().into_iter().collect();
+            for g in img.files.iter().filter(|g| !left.contains(&g.name)) {
+                if let Some(&i) = g.entries.iter().find(|&&i| case.entries[i].stamp > t) {
+                    return Err(format!(
+                        "truncate_before({}) -> {:?} while {} was unreadable: file {} was deleted although it holds entry #{} with stamp {} > {}",
+                        t,
+                        r.as_ref().map_err(|e| e.to_string()),
+                        f.name,
+                        g.name,
+                        i,
+                        case.entries[i].stamp,
+                        t
+                    ));
+                }
+            }
+        }
+    }
     if deleted_any {
         ctx.label("some_file_deleted");
     }
@@ -1119,8 +1220,221 @@ fn check_entries_after(case: &ImageCase, ctx: &mut CaseCtx<'_>) -> Result<(), St
             ));
         }
     }
+    // the integration-level entry point: RecoveryManager::recover_with_wal over an empty object
+    // store must hand back every WAL delta, in order; and with one WAL file unreadable (EACCES /
+    // EIO) both entry points still return the deltas of all other files
+    let run_with_wal = |what: &str| -> Result<Vec<Vec<u8>>, String> {
+        let r = catch(|| {
+            vcore::block_on(async {
+                let mgr = RecoveryManager::new(InMemoryObjectStore::new(), "c10", 1);
+                mgr.recover_with_wal(&rot).await
+            })
+        })
+        .map_err(|p| format!("recover_with_wal ({}) panicked: {}", what, p))?
+        .map_err(|e| format!("recover_with_wal ({}) failed: {}", what, e))?;
+        Ok(r.deltas.iter().map(|d| bincode::serialize(d).unwrap_or_default()).collect())
+    };
+    if !has_big(case) {
+        evals += 1;
+        let got = run_with_wal("intact image")?;
+        let exp: Vec<Vec<u8>> = all.iter().map(|e| e.data.clone()).collect();
+        if got != exp {
+            return Err(format!("recover_with_wal over an empty object store returned {} deltas, the WAL holds {}", got.len(), exp.len()));
+        }
+        for m in 0..img.files.len().min(6) {
+            let f = &img.files[m];
+            let exp: Vec<Vec<u8>> = img
+                .files
+                .iter()
+                .enumerate()
+                .filter(|(i, _)| *i != m)
+                .flat_map(|(_, g)| g.entries.iter().map(|&i| case.entries[i].data.clone()))
+                .collect();
+            for fault in [ReadFault::OpenIo, ReadFault::ReadIo] {
+                evals += 2;
+                img.store.set_read_fault(&f.name, Some(fault));
+                let a = catch(|| rot.recover_entries_after(0));
+                let b = run_with_wal(&format!("{} unreadable: {:?}", f.name, fault));
+                img.store.set_read_fault(&f.name, None);
+                let a = a
+                    .map_err(|p| format!("recover_entries_after(0) with {} unreadable panicked: {}", f.name, p))?
+                    .map_err(|e| format!("recover_entries_after(0) fails as a whole because {} is unreadable ({:?}): {}", f.name, fault, e))?;
+                let a: Vec<Vec<u8>> = a.iter().map(|d| bincode::serialize(d).unwrap_or_default()).collect();
+                if a != exp {
+                    return Err(format!("recover_entries_after(0) with {} unreadable ({:?}): {} deltas, the other files hold {}", f.name, fault, a.len(), exp.len()));
+                }
+                let b = b?;
+                if b != exp {
+                    return Err(format!("recover_with_wal with {} unreadable ({:?}): {} deltas, the other files hold {}", f.name, fault, b.len(), exp.len()));
+                }
+            }
+        }
+    }
     if img.files.len() >= 2 && case.entries.len() >= 3 {
         ctx.nontrivial(&case.entries.iter().map(|e| (e.data.clone(), e.stamp)).collect::<Vec<_>>());
+    }
+    ctx.add_evaluations(evals);
+    Ok(())
+}
+
+// ---------------------------------------------------------------------------------------
+// truncation requested through the WAL actor (WalActorHandle::truncate / TruncateUpTo)
+// ---------------------------------------------------------------------------------------
+
+#[derive(Clone, Debug, Serialize, Deserialize)]
+struct ActorCase {
+    /// (value length, stamp) of the acknowledged writes, in submission order
+    writes: Vec<(u16, u64)>,
+    max_file_size: u32,
+    /// 0 = Always, 1 = EverySecond, 2 = No
+    policy: u8,
+}
+
+fn actor_case() -> impl Strategy<Value = ActorCase> {
+    (
+        proptest::collection::vec((0u16..40, prop_oneof![6 => 0u64..10, 2 => 0u64..1000, 1 => Just(u64::MAX), 1 => any::<u64>()]), 1..=10),
+        prop_oneof![2 => Just(17u32), 4 => 80u32..300, 2 => 300u32..900, 1 => Just(1u32 << 24)],
+        0u8..3,
+    )
+        .prop_map(|(writes, max_file_size, policy)| ActorCase {
+            writes,
+            max_file_size,
+            policy,
+        })
+}
+
+fn actor_delta(i: usize, len: usize, stamp: u64) -> (Arc<ReplicationDelta>, Vec<u8>) {
+    let rid = ReplicaId::new(1 + (i as u64 % 3));
+    let rv = ReplicatedValue::with_value(
+        SDS::new(vec![b'a' + (i % 26) as u8; len]),
+        LamportClock {
+            time: stamp,
+            replica_id: rid,
+        },
+    );
+    let d = ReplicationDelta::new(format!("a{}", i), rv, rid);
+    let b = bincode::serialize(&d).expect("bincode of a delta");
+    (Arc::new(d), b)
+}
+
+fn check_actor_truncate(c: &ActorCase, ctx: &mut CaseCtx<'_>) -> Result<(), String> {
+    let policy = match c.policy {
+        0 => FsyncPolicy::Always,
+        1 => FsyncPolicy::EverySecond,
+        _ => FsyncPolicy::No,
+    };
+    ctx.label(&format!("policy={:?}", policy));
+    let deltas: Vec<(Arc<ReplicationDelta>, Vec<u8>, u64)> = c
+        .writes
+        .iter()
+        .enumerate()
+        .map(|(i, &(len, stamp))| {
+            let (d, b) = actor_delta(i, len as usize, stamp);
+            (d, b, stamp)
+        })
+        .collect();
+    let (barrier, barrier_bytes) = actor_delta(1000, 3, 0);
+    let mut ts: BTreeSet<u64> = BTreeSet::new();
+    ts.insert(0);
+    for &(_, s) in &c.writes {
+        ts.insert(s);
+        ts.insert(s.saturating_sub(1));
+        ts.insert(s.saturating_add(1));
+    }
+    let mut evals = 0u64;
+    let mut deleted_any = false;
+    let mut multi_file = false;
+    for &t in &ts {
+        evals += 1;
+        let store = ImgStore::new();
+        let cfg = WalConfig {
+            enabled: true,
+            wal_dir: std::path::PathBuf::from("/nonexistent-c10"),
+            fsync_policy: policy,
+            max_file_size: (c.max_file_size as usize).max(17),
+            // one entry per commit: no group-commit timer is ever armed
+            group_commit_max_entries: 1,
+            group_commit_max_wait: std::time::Duration::ZERO,
+            truncation_check_interval: std::time::Duration::from_secs(3600),
+        };
+        let st = store.clone();
+        let deltas2 = deltas.clone();
+        let barrier2 = barrier.clone();
+        // returns the files present right before the truncation request (the last one written
+        // to is the actor's active file)
+        let before: BTreeMap<String, Vec<u8>> = catch(move || {
+            vcore::block_on(async move {
+                let (h, task) = spawn_wal_actor(st.clone(), cfg).map_err(|e| format!("spawn_wal_actor: {}", e))?;
+                for (i, (d, _, stamp)) in deltas2.iter().enumerate() {
+                    h.write_durable(d.clone(), *stamp)
+                        .await
+                        .map_err(|e| format!("write_durable #{} failed on a fault-free store: {}", i, e))?;
+                }
+                let before: BTreeMap<String, Vec<u8>> = st.names().into_iter().map(|n| (n.clone(), st.get(&n).unwrap_or_default())).collect();
+                h.truncate(t);
+                // a later message on the same FIFO channel: once it is acknowledged the
+                // truncation request has been handled
+                h.write_durable(barrier2, 0).await.map_err(|e| format!("barrier write failed: {}", e))?;
+                h.shutdown().await;
+                drop(h);
+                task.await.map_err(|e| format!("the WAL actor ended abnormally: {}", e))?;
+                Ok::<_, String>(before)
+            })
+        })
+        .map_err(|p| format!("truncate({}) through the actor panicked: {}", t, p))
+        .and_then(|r| r)?;
+        let what = format!(
+            "{:?}: writes with stamps {:?} acknowledged, then WalActorHandle::truncate({})",
+            policy,
+            c.writes.iter().map(|w| w.1).collect::<Vec<_>>(),
+            t
+        );
+        if before.len() >= 2 {
+            multi_file = true;
+        }
+        // which file held which write before the truncation (reference framer)
+        let mut layout: Vec<(String, Vec<u64>)> = Vec::new();
+        let mut active: Option<String> = None;
+        for (name, bytes) in &before {
+            let es = ref_decode(bytes, WAL_HEADER_SIZE.min(bytes.len()));
+            if es.iter().any(|e| e.0 == deltas.last().map(|d| d.1.clone()).unwrap_or_default()) {
+                active = Some(name.clone());
+            }
+            layout.push((name.clone(), es.iter().map(|e| e.1).collect()));
+        }
+        let left: BTreeSet<String> = store.names().into_iter().collect();
+        if before.keys().any(|n| !left.contains(n)) {
+            deleted_any = true;
+        }
+        if let Some(a) = &active {
+            if !left.contains(a) {
+                return Err(format!("{}: the active file {} was removed; files before: {:?}", what, a, layout));
+            }
+        }
+        let got = recover(&store).map_err(|e| format!("{}: {}", what, e))?;
+        for (i, (_, bytes, stamp)) in deltas.iter().enumerate() {
+            let present = got.iter().any(|g| &g.0 == bytes && g.1 == *stamp);
+            if *stamp > t && !present {
+                return Err(format!(
+                    "{}: write #{} with stamp {} > {} is no longer recovered; files before the truncation: {:?}; files left: {:?}",
+                    what, i, stamp, t, layout, left
+                ));
+            }
+        }
+        if !got.iter().any(|g| g.0 == barrier_bytes) {
+            return Err(format!("{}: the write acknowledged after the truncation is not recovered", what));
+        }
+        for g in &got {
+            if g.0 != barrier_bytes && !deltas.iter().any(|d| d.1 == g.0 && d.2 == g.1) {
+                return Err(format!("{}: recovery returns an entry that was never written (len={} stamp={})", what, g.0.len(), g.1));
+            }
+        }
+    }
+    if deleted_any {
+        ctx.label("some_file_deleted");
+    }
+    if multi_file && c.writes.len() >= 3 {
+        ctx.nontrivial(&(c.writes.clone(), c.max_file_size, c.policy));
     }
     ctx.add_evaluations(evals);
     Ok(())
@@ -1358,6 +1672,12 @@ fn main() {
         },
         check_entries_after,
     );
+
+    s.describe_check(
+        "actor_truncate",
+        "1..10 acknowledged write_durable calls (stamps non-monotone across files) through spawn_wal_actor under Always / EverySecond / No, then WalActorHandle::truncate(T) for every T in stamps, stamps-1, stamps+1, 0, ordered by a barrier write; a fresh rotator must recover every write stamped > T and the barrier, the active file must still exist",
+    );
+    s.run_cases("actor_truncate", s.scale(1_000, 40_000), actor_case, check_actor_truncate);
 
     s.describe_check(
         "long_log",
